@@ -172,6 +172,19 @@ func (t *tenv) genInt(d int) nexp {
 			return nexp{eDot(t.genStr(d-1), "length"), true, 200, 0}
 		case 2:
 			n, _ := pickKey(t.numArrs, r)
+			if r.Chance(1, 3) {
+				// indexOf is strict equality: a string that prints like an element is not that element, and the other way round
+				an := t.data["an"].([]interface{})
+				el := an[r.Intn(len(an))].(int)
+				switch r.Intn(3) {
+				case 0:
+					return nexp{eCall(eDot(eId("an"), "indexOf"), eStr(strconv.Itoa(el))), true, 10, 0}
+				case 1:
+					return nexp{eCall(eDot(eArr(eStr("1"), eStr(strconv.Itoa(el)), eStr("x")), "indexOf"), eNum(strconv.Itoa(iabs(el)))), true, 10, 0}
+				default:
+					return nexp{eCall(eDot(eArr(eStr(strconv.Itoa(iabs(el))), eNum(strconv.Itoa(iabs(el))), eStr("x")), "indexOf"), eNum(strconv.Itoa(iabs(el)))), true, 10, 0}
+				}
+			}
 			return nexp{eCall(eDot(eId(n), "indexOf"), t.genInt(d-2).e), true, 10, 0}
 		default:
 			return nexp{eCall(eDot(t.genStr(d-1), "indexOf"), t.genStr(d-2)), true, 200, 0}
@@ -186,6 +199,13 @@ func (t *tenv) genInt(d int) nexp {
 		op := []string{"||", "&&"}[r.Intn(2)]
 		return nexp{eBin(op, a.e, b.e), true, maxf(a.maxAbs, b.maxAbs), 0}
 	}
+}
+
+func iabs(a int) int {
+	if a < 0 {
+		return -a
+	}
+	return a
 }
 
 func maxf(a, b float64) float64 {
